@@ -123,7 +123,9 @@ func c12GetSTH(r *Run) {
 	}
 	r.Gate(fn, "GetSTH:fetch-failed", nil, nil, nilAtom(c12Get+"(*)#2"), "non", yield, []ssa.Instruction{conv, ver}, "the fetch failed")
 	r.Gate(fn, "GetSTH:malformed-sth", nil, nil, nilAtom("(*ct.GetSTHResponse).ToSignedTreeHead(*)#1"), "non", yield, []ssa.Instruction{ver}, "the response is not a well-formed STH")
-	r.Gate(fn, "GetSTH:signature-rejected", nil, nil, nilAtom("(*client.LogClient).VerifySTHSignature(*)"), "non", yield, nil, "the STH signature does not verify")
+	// once the verification said no, no STH-yielding return executes; a return that can be reached
+	// without executing the verification is a remembered verdict or a violation (rules_t8c12.go)
+	c12RememberedVerdict(r, fn, ver, conv, yield)
 	r.ExpectArg(get, "GetSTH:path", 2, `"/ct/v1/get-sth"`)
 	r.Check("GetSTH:converts-fetched-response", baseAlloc(CallArgs(get)[4]) != nil && baseAlloc(CallArgs(get)[4]) == baseAlloc(CallArgs(conv)[0]), r.Where(conv), "ToSignedTreeHead is applied to the response object GetAndParse filled")
 	r.ExpectArg(ver, "GetSTH:verify.client", 0, "p0")
